@@ -137,4 +137,169 @@ Proof.
   intros Ho Hp H. eapply mirror_held. apply mirror_after_edits. eapply inverse_mirrors; eauto.
 Qed.
 
+
+(* ================= link = True and callable parameters ================= *)
+(* n follows o: same grid, opposite sign, and n's parameters are o's -- either because n is a shallow
+   copy reading the same cell / the same callable on the same condition, or because n is linked to o
+   and o holds a tensor *)
+Definition follows (s : state) (o n : nat) : Prop :=
+  exists ob obn,
+    get_obj s o = Some ob /\ get_obj s n = Some obn /\
+    o_grid P G C obn = o_grid P G C ob /\ o_kind P G C obn = o_kind P G C ob /\
+    invertible (o_kind P G C ob) = true /\ o_inv P G C obn = negb (o_inv P G C ob) /\
+    ((get_params s obn = get_params s ob /\ o_cond P G C obn = o_cond P G C ob /\
+      ((exists r ip, get_params s ob = Some (VTen r ip)) \/ (exists f, get_params s ob = Some (VFun f))))
+     \/ (get_params s obn = Some (VLink o) /\ exists r ip, get_params s ob = Some (VTen r ip))).
+
+Lemma follows_held s o n :
+  follows s o n -> exists p g sg, held s o = Some (p, g, sg) /\ held s n = Some (p, g, negb sg).
+Proof.
+  intros (ob & obn & Ho & Hn & Hg & Hk & Hi & Hv & Hc).
+  unfold TransformState.held. fold (get_obj s o) (get_obj s n). rewrite Ho, Hn.
+  unfold sign_of. rewrite Hk, Hi, Hg, Hv.
+  destruct Hc as [(Ep & Ec & [(r & ip & Hp) | (f & Hp)]) | (Ep & r & ip & Hp)]; rewrite Ep; try rewrite Hp.
+  - eexists _, _, _. split; reflexivity.
+  - rewrite Ec. eexists _, _, _. split; reflexivity.
+  - fold (get_obj s o). rewrite Ho. unfold data_ref. rewrite Hp. eexists _, _, _. split; reflexivity.
+Qed.
+
+Lemma follows_frame s s' o n :
+  objs P G C s' = objs P G C s -> pds P G C s' = pds P G C s -> follows s o n -> follows s' o n.
+Proof.
+  intros Eo Ep (ob & obn & Ho & Hn & Hg & Hk & Hi & Hv & Hc).
+  exists ob, obn. unfold TransformState.get_obj in *. rewrite Eo.
+  rewrite (get_params_pds s s' ob Ep), (get_params_pds s s' obn Ep). repeat split; auto.
+Qed.
+
+Theorem follows_after_edits es : forall s o n, follows s o n -> follows (edits s es) o n.
+Proof.
+  induction es as [|[t p] es IH]; intros s o n H; cbn; auto.
+  apply IH. destruct (edit_frame s t p _ _ eq_refl eq_refl) as [Eo Ep].
+  eapply follows_frame; eauto.
+Qed.
+
+Lemma get_set_other' (s : state) o o' (x : obj) : o <> o' -> get_obj (set_obj s o x) o' = get_obj s o'.
+Proof. unfold TransformState.get_obj, TransformState.set_obj; cbn. apply nth_error_replace_other. Qed.
+
+(* what link_ does to a shallow copy of a transform that holds a (non-Parameter) tensor *)
+Lemma link_set_effect s n o obn ob r ip s2 :
+  get_obj s n = Some obn -> get_obj s o = Some ob -> n <> o ->
+  get_params s ob = Some (VTen r ip) ->
+  link_set P G C s n o = Ok tt s2 ->
+  exists obn2, get_obj s2 n = Some obn2 /\ get_obj s2 o = Some ob /\ pds P G C s2 = pds P G C s /\
+    tens P G C s2 = tens P G C s /\
+    get_params s2 obn2 = Some (VLink o) /\ o_grid P G C obn2 = o_grid P G C obn /\ o_kind P G C obn2 = o_kind P G C obn
+    /\ o_inv P G C obn2 = o_inv P G C obn /\ o_v P G C obn2 = o_v P G C obn.
+Proof.
+  intros Hn Ho Hne Hp H. unfold link_set, with_obj in H. fold (get_obj s n) (get_obj s o) in H. rewrite Hn, Ho in H.
+  destruct (Nat.eqb n o) eqn:En; [apply Nat.eqb_eq in En; contradiction|].
+  destruct (negb _); try discriminate.
+  assert (H' : bind P G C (set_params P G C s n (SetLink o)) (fun _ s1 =>
+        with_obj P G C s1 n (fun ob1 =>
+          match o_p P G C ob1 with
+          | Some _ => Ok tt s1
+          | None =>
+            match get_params s1 ob with
+            | None => Er AttrErr s1
+            | Some VNone => Er OtherErr s1
+            | Some _ =>
+                bind P G C (with_obj P G C s1 o (fun ob'' => data_ref P G C s1 ob'')) (fun r s2 =>
+                  Ok tt (set_obj s2 n (set_p P G C ob1 (Some r))))
+            end
+          end)) = Ok tt s2).
+  { destruct (o_kind P G C obn); try discriminate; exact H. }
+  clear H. unfold bind at 1 in H'. unfold set_params, with_obj in H'. fold (get_obj s n) in H'. rewrite Hn in H'.
+  destruct (get_pd P G C s (o_pd P G C obn)) eqn:Epd; try discriminate.
+  set (obn1 := set_slots P G C obn None None (Some (Some (MLink o)))) in *.
+  set (s1 := set_obj s n obn1) in *.
+  assert (Hg1 : get_obj s1 n = Some obn1) by (apply (get_set_same' _ _ _ _ Hn)).
+  assert (Ho1 : get_obj s1 o = Some ob) by (unfold s1; rewrite get_set_other'; auto).
+  unfold with_obj in H'. fold (get_obj s1 n) in H'. rewrite Hg1 in H'.
+  assert (Hlink : forall x, get_params (set_obj s1 n (set_p P G C obn1 x)) (set_p P G C obn1 x) = Some (VLink o) /\ get_params s1 obn1 = Some (VLink o)).
+  { intro x. unfold TransformState.get_params, get_pd in *. subst obn1 s1. destruct obn; cbn in *. rewrite Epd. split; reflexivity. }
+  assert (Hf : forall x, o_grid P G C (set_p P G C obn1 x) = o_grid P G C obn /\ o_kind P G C (set_p P G C obn1 x) = o_kind P G C obn
+                /\ o_inv P G C (set_p P G C obn1 x) = o_inv P G C obn /\ o_v P G C (set_p P G C obn1 x) = o_v P G C obn).
+  { intro x. subst obn1. destruct obn; repeat split. }
+  assert (Hf1 : o_grid P G C obn1 = o_grid P G C obn /\ o_kind P G C obn1 = o_kind P G C obn
+                /\ o_inv P G C obn1 = o_inv P G C obn /\ o_v P G C obn1 = o_v P G C obn).
+  { subst obn1. destruct obn; repeat split. }
+  destruct (o_p P G C obn1) eqn:Ep1.
+  - injection H' as <-. exists obn1. destruct (Hlink None) as [_ Hl]. destruct Hf1 as (A & B & D & E).
+    repeat split; auto.
+  - assert (Hp1 : get_params s1 ob = Some (VTen r ip)) by (rewrite (get_params_pds s s1 ob eq_refl); exact Hp).
+    rewrite Hp1 in H'. unfold bind, with_obj in H'. fold (get_obj s1 o) in H'. rewrite Ho1 in H'.
+    unfold data_ref in H'. rewrite Hp1 in H'. injection H' as <-.
+    exists (set_p P G C obn1 (Some r)). destruct (Hlink (Some r)) as [Hl _]. destruct (Hf (Some r)) as (A & B & D & E).
+    split; [apply (get_set_same' _ _ _ _ Hg1)|]. split; [rewrite get_set_other'; auto|].
+    repeat split; auto.
+Qed.
+
+Theorem inverse_follows s o link upd n s1 ob :
+  get_obj s o = Some ob ->
+  ((exists r ip, get_params s ob = Some (VTen r ip)) \/ (link = false /\ exists f, get_params s ob = Some (VFun f))) ->
+  inverse1 s o link upd = Ok n s1 -> follows s1 o n.
+Proof.
+  destruct (cfg_all_fields _ Hcf) as (_ & _ & _ & _ & _ & _ & _ & _ & _ & _ & Hfl & Hil & _).
+  intros Ho Hpk H. unfold TransformState.inverse1, with_obj in H. fold (get_obj s o) in H. rewrite Ho in H.
+  destruct (invertible (o_kind P G C ob)) eqn:Hi; cbn [negb] in H; try discriminate.
+  cbn [push_obj] in H. rewrite Hfl, Hil in H.
+  set (sp := mkSt P G C (tens P G C s) (pds P G C s) (npd P G C s) (objs P G C s ++ [ob])) in *.
+  set (n0 := length (objs P G C s)) in *.
+  assert (Hlen : n0 <> o).
+  { intro E. unfold TransformState.get_obj in Ho. rewrite <- E in Ho.
+    assert (nth_error (objs P G C s) n0 = None) by (apply nth_error_None; unfold n0; lia). congruence. }
+  assert (Hgn : get_obj sp n0 = Some ob) by (unfold TransformState.get_obj, sp, n0; cbn; apply nth_error_app_new).
+  assert (Hgo : get_obj sp o = Some ob) by (unfold TransformState.get_obj, sp; cbn; apply nth_error_app_old; exact Ho).
+  (* the object that receives the inverted flag, and what it reads *)
+  assert (Hmid : exists s2 ob2, (if link && true then link_set P G C sp n0 o else Ok tt sp) = Ok tt s2 /\
+            get_obj s2 n0 = Some ob2 /\ get_obj s2 o = Some ob /\ pds P G C s2 = pds P G C s /\
+            o_grid P G C ob2 = o_grid P G C ob /\ o_kind P G C ob2 = o_kind P G C ob /\ o_inv P G C ob2 = o_inv P G C ob /\
+            ((get_params s2 ob2 = get_params s ob /\ o_cond P G C ob2 = o_cond P G C ob /\ link = false)
+             \/ (get_params s2 ob2 = Some (VLink o) /\ link = true))).
+  { destruct link; cbn [andb] in *.
+    - destruct (link_set P G C sp n0 o) as [[] s2|] eqn:El; try discriminate.
+      destruct Hpk as [(r & ip & Hp) | (Hx & _)]; [|discriminate].
+      assert (Hp' : get_params sp ob = Some (VTen r ip)) by (rewrite (get_params_pds s sp ob eq_refl); exact Hp).
+      destruct (link_set_effect sp n0 o ob ob r ip s2 Hgn Hgo Hlen Hp' El) as (ob2 & A & B & D & _ & E & F & K & I & _).
+      exists s2, ob2. repeat split; auto.
+    - exists sp, ob. repeat split; auto. }
+  destruct Hmid as (s2 & ob2 & Em & Hg2 & Ho2 & Epd & Hgr & Hk & Hiv & Hc).
+  rewrite Em in H. unfold with_obj in H. fold (get_obj s2 n0) in H. rewrite Hg2 in H.
+  injection H as <- <-.
+  set (obn := if has_exp (o_kind P G C ob) && upd then _ else _).
+  assert (Hsl : slots_eq obn ob2 /\ o_inv P G C obn = negb (o_inv P G C ob) /\ o_cond P G C obn = o_cond P G C ob2).
+  { subst obn. destruct (has_exp (o_kind P G C ob) && upd).
+    - match goal with |- context [match ?x with Some _ => _ | None => _ end] => destruct x end.
+      + split; [eapply slots_eq_trans; [eapply slots_set_uv | eapply slots_set_inv]|].
+        split; [rewrite inv_set_uv; apply inv_set_inv | destruct ob2; reflexivity].
+      + split; [apply slots_set_inv|]. split; [apply inv_set_inv | destruct ob2; reflexivity].
+    - split; [apply slots_set_inv|]. split; [apply inv_set_inv | destruct ob2; reflexivity]. }
+  destruct Hsl as ((Ha & Hd & Hb & Hm & Hg & Hkk) & Hv & Hcd).
+  exists ob, obn.
+  assert (Egp : get_params (set_obj s2 n0 obn) obn = get_params s2 ob2).
+  { unfold TransformState.get_params, get_pd. cbn. rewrite Ha, Hd, Hb, Hm. reflexivity. }
+  assert (Egpo : get_params (set_obj s2 n0 obn) ob = get_params s ob).
+  { unfold TransformState.get_params, get_pd. cbn. rewrite Epd. reflexivity. }
+  refine (conj _ (conj _ (conj _ (conj _ (conj Hi (conj Hv _)))))).
+  - rewrite get_set_other'; auto.
+  - apply (get_set_same' _ _ _ _ Hg2).
+  - congruence.
+  - congruence.
+  - rewrite Egp, Egpo. destruct Hc as [(E1 & E2 & ->) | (E1 & ->)].
+    + left. split; [exact E1|]. split; [congruence|].
+      destruct Hpk as [Hx | (_ & Hx)]; [left | right]; exact Hx.
+    + right. split; auto. destruct Hpk as [Hx | (Hx & _)]; [exact Hx | discriminate].
+Qed.
+
+(* the inverse stays the inverse: link in {False, True} for tensor / Parameter-free parameters, link = False
+   for callable parameters (inverse(link=True) on a Parameter raises -- see the refutation) *)
+Theorem inverse_stays_inverse_general s o link upd n s1 ob es :
+  get_obj s o = Some ob ->
+  ((exists r ip, get_params s ob = Some (VTen r ip)) \/ (link = false /\ exists f, get_params s ob = Some (VFun f))) ->
+  inverse1 s o link upd = Ok n s1 ->
+  exists p g sg, held (edits s1 es) o = Some (p, g, sg) /\ held (edits s1 es) n = Some (p, g, negb sg).
+Proof.
+  intros Ho Hp H. eapply follows_held. apply follows_after_edits. eapply inverse_follows; eauto.
+Qed.
+
 End Shared.
